@@ -281,6 +281,8 @@ func registerOverrides(e *Engine) {
 		}
 		return nil
 	})
+	e.reg(zz+"TempDir", func(in *interp, fr *frame, a []value) value { return "/nonexistent/verif-tmp" })
+	e.reg(zz+"Cleanup", func(in *interp, fr *frame, a []value) value { return nil })
 	e.reg(zz+"FireTimers", func(in *interp, fr *frame, a []value) value {
 		// every pending time.AfterFunc callback runs now, each in its own (timer) goroutine
 		fns := in.afterFuncs
